@@ -15,7 +15,7 @@ def cond_index(kw):
     return 0 if kw.get("RingMatchesRingOnly", True) else 1
 
 
-def run_with_plan(inputs, plan=None, grace=0.0, workers=1):
+def run_with_plan(inputs, plan=None, grace=0.0, workers=1, batch_size=None):
     """plan: {"search": {"<input index>:<cond>": "raise"|"timeout"|"uncertain"|"inner"|"hold:<seconds>"}, "graph": {"<input index>": "raise"|"timeout"}}
     (input index = position among the batch's inputs; "hold" keeps a finished search job back, so that with workers > 1 -- joblib's
     threading backend, observers stay in-process -- the jobs of a condition complete in a chosen order).  Returns a JSON-able record."""
@@ -31,7 +31,7 @@ def run_with_plan(inputs, plan=None, grace=0.0, workers=1):
     plan = plan or {}
     sp, gp = plan.get("search", {}), plan.get("graph", {})
     jobs, glog, snap, undo = {}, [], {}, []
-    state = {"rows": None, "id2pos": {}}
+    state = {"rows": None, "id2pos": {}, "offset": 0}
 
     def patch(obj, name, new):
         undo.append((obj, name, obj.__dict__[name] if isinstance(obj, type) else getattr(obj, name)))
@@ -94,12 +94,23 @@ def run_with_plan(inputs, plan=None, grace=0.0, workers=1):
         if act == "timeout":
             time.sleep(8.0)    # well past the 2 s thread wait, and long enough that two overlapping hangs still occupy their worker
                                # threads when the job after them is submitted and for more than its own 2 s wait
+        if act == "timeout+raise":
+            time.sleep(3.0)    # the wait expires AND the analysis fails: both kinds of fault on one job
+            raise RuntimeError("injected fault after the wait expired")
+        if act == "slow+raise-always":
+            # the analysis of this reaction fails whenever it is tried (also when a time-out handler tries again), and is slow the first time
+            if not state.get("slow_done_%s" % pos):
+                state["slow_done_%s" % pos] = True
+                time.sleep(3.0)
+            raise RuntimeError("injected fault (every attempt)")
         return o_fg(mol_list, mcs_list, *a, **kw)
     patch(FG, "find_missing_parts_pairs", staticmethod(fg))
     o_find = MCSSearch.find
 
     def find(self_, reactions):
-        state["id2pos"] = {r["id"]: i for i, r in enumerate(reactions)}
+        # positions count through the batches of one run (batch_size): batch k starts at the number of rows of the batches before it
+        state["id2pos"] = {r["id"]: state["offset"] + i for i, r in enumerate(reactions)}
+        state["next_offset"] = state["offset"] + len(reactions)
         state["solved_before"] = [bool(r["solved"]) for r in reactions]
         import synrbl.mcs_search as ms
         o_glc = ms.ExtractMCS.get_largest_condition
@@ -121,6 +132,7 @@ def run_with_plan(inputs, plan=None, grace=0.0, workers=1):
                                "carbon": r.get("carbon_balance_check"), "reaction": r.get("reaction"),
                                "side_keys": [r.get("reactants") if isinstance(r.get("reactants"), str) else None, r.get("products") if isinstance(r.get("products"), str) else None]} for r in reactions]
         state["rows"] = reactions
+        state["offset"] = state["next_offset"]
         return out
     patch(MCSSearch, "find", find)
     st = {}
@@ -131,6 +143,9 @@ def run_with_plan(inputs, plan=None, grace=0.0, workers=1):
             from synrbl import Balancer
             with joblib.parallel_backend("threading", n_jobs=workers):
                 rows = Balancer(n_jobs=workers).rebalance(list(inputs), output_dict=True, stats=st)
+        elif batch_size is not None:
+            from synrbl import Balancer
+            rows = Balancer(n_jobs=1, batch_size=batch_size).rebalance(list(inputs), output_dict=True, stats=st)
         else:
             rows = pipe.balancer(0).rebalance(list(inputs), output_dict=True, stats=st)
         err = None
@@ -161,7 +176,7 @@ def run_with_plan(inputs, plan=None, grace=0.0, workers=1):
 
 
 def run_many(items, procs=None):
-    """items: list of (inputs, plan, grace[, workers])"""
+    """items: list of (inputs, plan, grace[, workers[, batch_size]])"""
     procs = procs or min(NPROC - 2, 12)
     if len(items) <= 1:
         return [run_with_plan(*it) for it in items]
